@@ -161,6 +161,17 @@ def staleOlder (a : Nat) (q : Policy) : Bool :=
 def staleAfter (n : Nat) (q : Policy) : Bool :=
   (atomsOf q).any fun | .after t => !cltvOk n t | _ => false
 
+mutual
+/-- canonical text up to the order of children (children's texts sorted as strings) -/
+def canonStr : Policy → String
+  | .thresh k subs =>
+    s!"thresh({k}" ++ String.join (((canonStrList subs).mergeSort (fun a b => decide (a ≤ b))).map ("," ++ ·)) ++ ")"
+  | p => showPolicy p
+def canonStrList : List Policy → List String
+  | [] => []
+  | p :: ps => canonStr p :: canonStrList ps
+end
+
 /-- a lifted policy (or a non-timelock refusal) against the concrete policy's truth table -/
 def judgeLift (c : CPolicy) (q : String) : Option String :=
   -- an `and` / `or` without children has no `Threshold`: refusing it is no wrong answer
@@ -227,6 +238,25 @@ def opsPolicy (kind op : String) (args : List String) : Option String :=
     -- refusal with the timelock error is right iff some satisfiable path mixes height and time
     if q == "ERR" then pure (okbadP (hasMixedPath c))
     else judgeLift c q
+  | "J", "safe", [c, ans] => do
+    -- `signed` ⇔ every satisfaction of the policy needs a signature
+    let c ← parseCPolicy c
+    pure (okbadP ((ans.take 1 == "1") == isSafeSpec c))
+  | "J", "nonmall-sound", [c, ans] => do
+    -- `non-malleable` claimed ⇒ whatever is available, the spender has a satisfaction that no
+    -- third party can replace (atoms pairwise distinct, so selections identify satisfactions)
+    let c ← parseCPolicy c
+    pure (okbadP (ans.drop 1 != "1" || isNonMalleableSpec c))
+  | "J", "nkeys", [p, ans] => do
+    let p ← parsePolicy p; pure (okbadP (ans == toString (keyOccurrences p)))
+  | "J", "sortcanon", [p, p', sp, sp'] => do
+    -- `sorted` is a normal form of the children's order: `p'` is `p` with children permuted,
+    -- each result is a child permutation of its input, and the two results are identical
+    let p ← parsePolicy p; let p' ← parsePolicy p'
+    let q ← parsePolicy sp; let q' ← parsePolicy sp'
+    pure (okbadP (canonStr p == canonStr p' && canonStr q == canonStr p
+      && canonStr q' == canonStr p' && sp == sp'))
+  | "J", "nopanic", args => pure (okbadP (args.getLast? != some "PANIC"))
   | "J", "checktl", [c, ans] => do
     let c ← parseCPolicy c; pure (okbadP ((ans == "err") == hasMixedPath c))
   | _, _, _ => none
